@@ -15,7 +15,7 @@ deriving DecidableEq, Repr
 def eqAny (a b : Key) : Bool := if a.ty = b.ty then decide (a.val = b.val) else false
 
 /-- Injective encoding of a key as the `Nat` task/resource name used by the build model. -/
-def encode (k : Key) : Nat := k.val * 8 + k.ty % 8
+def encode (k : Key) : Nat := k.val * 16 + k.ty % 16
 
 end Identity
 end PieModel
